@@ -8,7 +8,7 @@ from harness.c04 import ALL as KEYS
 
 ID = "C15"
 LEAN_MODULES = ["Mingus.Props.C15", "Mingus.Props.C15Fft", "Mingus.Tie.C15"]
-RULE = ("seeded random call histories (<=60 calls, a third of them mutations of previously returned lists) over the memoised theory "
+RULE = ("seeded random call histories, each on freshly re-executed theory modules (<=60 calls, a third of them mutations of previously returned lists) over the memoised theory "
         "API, compared call by call with the heap model and, after the history, a fixed battery of ~200 queries compared with a "
         "cold interpreter (subprocess); every public function of the seven core modules and the container methods that take "
         "lists, enumerated by introspection, called on deep-copied arguments that are compared afterwards; sibling-instance "
@@ -52,8 +52,15 @@ def cold_battery():
         _cold = json.loads(p.stdout.strip().splitlines()[-1])
     return _cold
 
+def cold_modules():
+    """every history starts on freshly executed theory modules (whatever memo tables they keep are empty again): a table that
+    leaks only on a miss is then exposed by every history, not just by the first one of the process"""
+    for m in (notes, keys, intervals, chords, progressions, scales):
+        importlib.reload(m)
+
 def run_memo(calls):
-    """execute the history on the real module state; mutate the real returned objects"""
+    """execute the history on cold module state; mutate the real returned objects"""
+    cold_modules()
     handed = []
     out = []
     for c in calls:
@@ -225,7 +232,7 @@ def rand_calls(rng, n):
     nq = 0
     for _ in range(n):
         k = rng.random()
-        key = rng.choice(["C", "Eb", "f#", "a", "G", "H"])
+        key = rng.choice(["C", "Eb", "f#", "a", "G", "H"]) if rng.random() < 0.7 else rng.choice(KEYS)
         if k < 0.65 or nq == 0:
             a = rng.choice(["get_notes", "triads", "sevenths", "func", "func", "to_chords"])
             if a == "func":
